@@ -500,6 +500,12 @@ func TestEngineCrypto(t *testing.T) {
 		// the same document through the Lean model (layer 1 on the canonical JSON)
 		tree := fromJSON(t, am)
 		out := emitDoc(9000, tree, "real")
+		{ // every real sign document must satisfy the hypotheses of the injectivity theorem (canonical, members listed once, well typed by its own schema)
+			var sb strings.Builder
+			tree.compact(&sb)
+			p.Emit("docok 9000 "+sb.String(), "1")
+			p.Count("docok")
+		}
 		if dgA == "error" || out != "ok "+dgA {
 			p.Oracle("C19-signdoc-digest-differs", "GetEIP712BytesForMsg(amino) = %s, WrapTxToTypedData on the same JSON = %s; doc=%s", dgA, out, am)
 			continue
